@@ -15,7 +15,7 @@ for p in props:
 print('clean tree:', base)
 def run(pt):
     tag = pt.replace('/', '_').replace('.', '_')
-    wt = f"/tmp/wt/rf-{tag}"
+    wt = f"/tmp/wt/rfp{os.getpid()}-{tag}"      # unique per invocation: concurrent runs (sub-agents) must not share worktrees
     if not os.path.isdir(wt):
         sh(f"git -C /repo worktree add -q --detach {wt} {head}")
     sh(f"git -C {wt} checkout -q --detach {head}; git -C {wt} checkout -- .")
